@@ -175,6 +175,11 @@ impl SortPreservingMergeExec {
 
         let mut eq_properties = input.equivalence_properties().clone();
         eq_properties.clear_per_partition_constants();
+        if input_partitions > 1 {
+            // Orderings of the individual input partitions beyond the merge
+            // keys are not preserved when several partitions are interleaved.
+            eq_properties.clear_orderings();
+        }
         eq_properties.add_ordering(ordering);
         PlanProperties::new(
             eq_properties,                        // Equivalence Properties
